@@ -22,7 +22,7 @@ JOBS = {'quick': 4, 'thorough': 16}
 REQUIRED_MONITORS = ('output_vs_truth', 'map_call_log', 'early_extrapolation_refused', 'em_shape_contract')
 REQUIRED_CLASSES = ('species:unmapped-interleaved', 'solvent', 'box:triclinic', 'box:rect', 'ref:1-atom', 'ref:2-atoms',
                     'ref:general', 'multi-residue', 'order:random', 'order:blocks', 'order:alternating', 'shipped-bmim-bf4',
-                    'early:no-maps', 'early:no-end-molecules', 'early:partial-maps')
+                    'early:no-maps', 'early:no-end-molecules', 'early:partial-maps', 'residue-numbers:gaps-inside-a-mapped-multi-residue-molecule')
 RULE = ('generated systems: 2-4 species (1-, 2-, many-bead; single and multi-residue) + solvent, 1..60 instances each in '
         'random/blocked/alternating order, a random non-empty subset of species given an end molecule, rectangular and '
         'triclinic boxes, s in {0.3,0.5,1,1.5}; plus the shipped BMIM/BF4 box. Non-trivial: at least two mapped species or a '
@@ -173,7 +173,12 @@ def run_gen(ctx, case):
         hint = [[1], [2], [int(rng.integers(3, 8))]]            # a 1-bead, a 2-bead and a many-bead species
     w = world.make_world(rng, root, nspecies=3 if hint else None, ninst=(1, 20 if ctx.tier == 'quick' else 60),
                          order=order, box_kind=box_kind, with_vel=bool(rng.random() < 0.3), sizes_hint=hint,
-                         end_for=None if not hint else None)
+                         end_for=None if not hint else None, resid_mode='gaps' if i % 3 == 1 else 'consecutive',
+                         multi_res_prob=0.6 if i % 3 == 1 else 0.35)
+    if i % 3 == 1:
+        ctx.hit('residue-numbers:gaps-and-restarts')
+        if any(len(w['species'][n]['sizes']) > 1 for n in w['end_for']):
+            ctx.hit('residue-numbers:gaps-inside-a-mapped-multi-residue-molecule')
     s = float(rng.choice([0.3, 0.5, 1.0, 1.5]))
     out = os.path.join(root, 'mapped.gro')
     wit = {'species': {k: v['sizes'] for k, v in w['species'].items()}, 'end_sizes': {k: w['end_species'][k]['sizes'] for k in w['end_for']},
